@@ -36,18 +36,20 @@ type hSocket struct {
 	a  adapter.Adapter
 }
 
-func (s *hSocket) ID() adapter.SocketID        { return s.id }
-func (s *hSocket) Join(room ...adapter.Room)   { s.a.AddAll(s.id, room) }
-func (s *hSocket) Leave(room adapter.Room)     { s.a.Delete(s.id, room) }
-func (s *hSocket) Emit(string, ...any)         {}
-func (s *hSocket) Disconnect(close bool)       { s.a.DeleteAll(s.id) }
+func (s *hSocket) ID() adapter.SocketID      { return s.id }
+func (s *hSocket) Join(room ...adapter.Room) { s.a.AddAll(s.id, room) }
+func (s *hSocket) Leave(room adapter.Room)   { s.a.Delete(s.id, room) }
+func (s *hSocket) Emit(string, ...any)       {}
+func (s *hSocket) Disconnect(close bool)     { s.a.DeleteAll(s.id) }
 func (s *hSocket) op() *adapter.BroadcastOperator {
 	return adapter.NewBroadcastOperator("/", s.a, notReserved).Except(adapter.Room(s.id))
 }
-func (s *hSocket) To(room ...adapter.Room) *adapter.BroadcastOperator     { return s.op().To(room...) }
-func (s *hSocket) In(room ...adapter.Room) *adapter.BroadcastOperator     { return s.op().To(room...) }
-func (s *hSocket) Except(room ...adapter.Room) *adapter.BroadcastOperator { return s.op().Except(room...) }
-func (s *hSocket) Broadcast() *adapter.BroadcastOperator                  { return s.op() }
+func (s *hSocket) To(room ...adapter.Room) *adapter.BroadcastOperator { return s.op().To(room...) }
+func (s *hSocket) In(room ...adapter.Room) *adapter.BroadcastOperator { return s.op().To(room...) }
+func (s *hSocket) Except(room ...adapter.Room) *adapter.BroadcastOperator {
+	return s.op().Except(room...)
+}
+func (s *hSocket) Broadcast() *adapter.BroadcastOperator { return s.op() }
 
 func notReserved(string) bool { return false }
 
